@@ -234,6 +234,8 @@ def dynamic_spec(draw):
         "kids": draw(st.lists(st.sampled_from(["a", "b", "c"]), min_size=1, max_size=3, unique=True)),
         "then": draw(st.lists(st.sampled_from(["alloc_root", "alloc_new", "trade_new", "next", "read_new"]), min_size=1, max_size=5)),
         "integer": draw(st.booleans()),
+        "child_trades": draw(st.booleans()),
+        "fee": draw(st.sampled_from([None, 25.0])),
     }
 
 
@@ -248,6 +250,8 @@ def case_dynamic(ctx, spec):
     root = bt.core.Strategy("root", [], children=["a", "b"])
     root.setup(data)
     root.use_integer_positions(bool(spec["integer"]))
+    if spec.get("fee"):
+        root.set_commissions(interp.Fee({"kind": "fixed", "f": spec["fee"]}))
     root.adjust(1e6)
     root.update(dts[0])
     for t, w in spec["prior"].items():
@@ -260,7 +264,9 @@ def case_dynamic(ctx, spec):
         root.adjust(5e4)
     elif spec["pending"] == "allocate":
         root.allocate(2e4, child="a")
-    new = bt.core.Strategy("dyn", [], children=list(spec["kids"]), parent=root)
+    A = bt.algos
+    child_algos = [A.SelectAll(), A.WeighEqually(), A.Rebalance()] if spec.get("child_trades") else []
+    new = bt.core.Strategy("dyn", child_algos, children=list(spec["kids"]), parent=root)
     new.setup_from_parent()
     if spec["pattern"] == "update_child" and spec["pending"] is None:
         new.update(root.now)
@@ -279,10 +285,18 @@ def case_dynamic(ctx, spec):
                 root.update(dts[i])
         else:
             new.value, new.weight, new.price
+        if what in ("alloc_new", "next") and spec.get("child_trades"):
+            root.run()  # the newcomer's own stack (and that of its shadow copy) trades
         check_tree_identities(bt, root, "step %d (%s) after creating a sub-strategy" % (k, what))
+        # what the parent sees as the newcomer's price in its universe is the newcomer's index, on its first date as on any other
+        px = new.price
+        root.value
+        seen = float(root._universe.loc[root.now, "dyn"])
+        if not (abs(seen - px) <= 1e-12 * max(1.0, abs(px))):
+            raise Violation("step %d (%s): the parent's universe shows %r for the new sub-strategy on %s, its index is %r" % (k, what, seen, root.now, px), signature="dynamic:universe-cell")
         if what == "alloc_root" and abs(new.value) > 1e-9 and "alloc_new" not in spec["then"][:k]:
             raise Violation("allocating to the parent pushed %r into the just-created, empty sub-strategy (weights are value / parent value)" % new.value, signature="dynamic:alloc-spread")
-    return {"nontrivial": True, "labels": ["pattern=" + spec["pattern"], "pending=%s" % spec["pending"]]}
+    return {"nontrivial": True, "labels": ["pattern=" + spec["pattern"], "pending=%s" % spec["pending"]] + (["newcomer_trades"] if spec.get("child_trades") else []) + (["fee"] if spec.get("fee") else [])}
 
 
 SUBS = {"history": case_history, "backtest": case_backtest, "dynamic": case_dynamic}
